@@ -12,7 +12,7 @@ Proved: Inv (without the id clause U1, as for the parent setter) on normal exit,
 children detached with their subtrees, everything else untouched), `a call rejected by one of the checks changes nothing`, `rejected only for a stated
 reason`.  NOT proved: that the attach loop cannot reject once the checks have passed (needs the meaning of the opaque id-clash predicate) - a
 RuntimeError from the attach loop is allowed by this contract and left to the bounded stand-in (C15).
-Domain of the proof: the given list names no task twice (lists with repetitions: bounded stand-in).
+A task named several times ends up listed once, at the place of its last occurrence (each_once_last_occurrence_order, graph_theory.LIST_DL_AX).
 """
 import ast
 from z3 import *
@@ -84,9 +84,9 @@ class ChildrenPlugin(LinkPlugin):
 
 
 def c_to_list(eng, st, recv, args, kws, node):
-    # _to_list(value): some list of non-None public tasks; domain of this proof: no task named twice
+    # _to_list(value) (proved in contracts/small.py): a list of non-None tasks - public ones (domain restriction of DESIGN 8); a task may be named several times
     Lv = fresh('value', LT); ii = Int('ii'); h = H(eng, st)
-    st.assume(And(ln(Lv) >= 0, nodup(Lv), ForAll([ii], Implies(And(0 <= ii, ii < ln(Lv)), at(Lv, ii) != null), patterns=[at(Lv, ii)]),
+    st.assume(And(ln(Lv) >= 0, ForAll([ii], Implies(And(0 <= ii, ii < ln(Lv)), at(Lv, ii) != null), patterns=[at(Lv, ii)]),
                   ForAll([x], Implies(mem(Lv, x), And(x != null, h.tid[x] != EMPTY)), patterns=[mem(Lv, x)])))
     st.ghost['value0'] = Lv
     return [(st, V(Lv, LT))]
@@ -173,7 +173,7 @@ def children_setter_unit():
                              Not(c.st.ghost['attach_rejected']), m != null,
                              ForAll([t_], Implies(t_ != null, And(h.P(t_) == g.P(t_), h.S(t_) == g.S(t_))), patterns=[h.pre[t_]])),
                 'parents-so-far': ForAll([x], h.par[x] == If(And(mem(Vv, x), idx(Vv, x) < i), m, If(mem(C, x), null, g.par[x])), patterns=[h.par[x]]),
-                'children-of-the-task-so-far': h.ch(m) == take(Vv, i),
+                'children-of-the-task-so-far': h.ch(m) == dl(Vv, i),
                 'other-children-lists-so-far': ForAll([t_, x], Implies(And(t_ != null, t_ != m), mem(h.ch(t_), x) == And(mem(g.ch(t_), x), Not(And(mem(Vv, x), idx(Vv, x) < i)))), patterns=[mem(h.ch(t_), x)]),
                 'released-children-stay-detached': ForAll([x], Implies(And(mem(C, x), Not(mem(Vv, x))), h.own[x] == W.null), patterns=[h.own[x]]),
                 'the-task-itself-is-in-place': And(h.own[m] == g.own[m], Not(viol(h)(m))),
@@ -188,7 +188,7 @@ def children_setter_unit():
             h, g = hc(c), h0(c); Vv = V0(c); C = C0(c); m = me(c)
             d = {l_: v for l_, v in Inv(h).items() if l_ != U1}
             d.update({
-                'C16/children-list-is-exactly-the-given-list': h.ch(m) == Vv,
+                'C16/children-list-is-exactly-the-given-list': And(h.ch(m) == dl(Vv, ln(Vv)), Implies(nodup(Vv), h.ch(m) == Vv)),
                 'C16/every-named-task-reports-this-parent': ForAll([x], Implies(mem(Vv, x), h.par[x] == m)),
                 'C11,C16/children-left-out-are-detached': ForAll([x], Implies(And(mem(C, x), Not(mem(Vv, x))), And(h.par[x] == null, h.own[x] == W.null))),
                 'C16/parents-of-all-other-tasks-unchanged': ForAll([x], Implies(And(Not(mem(Vv, x)), Not(mem(C, x))), h.par[x] == g.par[x])),
@@ -214,7 +214,7 @@ def children_setter_unit():
         contracts = {'fn:_to_list': c_to_list, 'fn:_check_no_nones_in_list': c_none, 'fn:_has_id_intersection': c_clash_list, 'prop:Task.all_children': c_all_children,
                      'fn:_check_no_links_to_ancestors': c_check_links, 'Task._detach': c_detach, 'prop:Task.id': c_id,
                      'setprop:Task.parent': c_set_parent}
-        return Engine(F, 'Task.children.setter', contracts, TASK_CLASSES, fc, plugins=[ChildrenPlugin()]), LIST_AX + LIST_TAKE_AX + GRAPH_AX + KID_AX
+        return Engine(F, 'Task.children.setter', contracts, TASK_CLASSES, fc, plugins=[ChildrenPlugin()]), LIST_AX + LIST_DL_AX + GRAPH_AX + KID_AX
     return Unit('Task.children.setter', F, build, ['C01', 'C05', 'C11', 'C15', 'C16'], shards=4, timeout_ms=15000)
 
 
@@ -230,7 +230,7 @@ SETTER_FINAL = ['C16/children-list-is-exactly-the-given-list', 'C16/every-named-
 
 def setter_effect(h, g, m, Vv):
     C = g.ch(m)
-    return {'C16/children-list-is-exactly-the-given-list': h.ch(m) == Vv,
+    return {'C16/children-list-is-exactly-the-given-list': And(h.ch(m) == dl(Vv, ln(Vv)), Implies(nodup(Vv), h.ch(m) == Vv)),
             'C16/every-named-task-reports-this-parent': ForAll([x], Implies(mem(Vv, x), h.par[x] == m), patterns=[mem(Vv, x)]),
             'C11,C16/children-left-out-are-detached': ForAll([x], Implies(And(mem(C, x), Not(mem(Vv, x))), And(h.par[x] == null, h.own[x] == W.null)), patterns=[mem(C, x)]),
             'C16/parents-of-all-other-tasks-unchanged': ForAll([x], Implies(And(Not(mem(Vv, x)), Not(mem(C, x))), h.par[x] == g.par[x]), patterns=[h.par[x]]),
@@ -247,7 +247,7 @@ def children_setter_call(eng, st, m, Vv, line):
     for lab, f in Inv(g).items():
         if lab != U1: st.oblige(f'req@children.setter/{lab}', f, f'@{line}')
     st.oblige('req@children.setter/task-non-null', m != null, f'@{line}')
-    st.oblige('req@children.setter/list-of-public-tasks-without-repetition', And(nodup(Vv), ForAll([x], Implies(mem(Vv, x), And(x != null, g.tid[x] != EMPTY)), patterns=[mem(Vv, x)])), f'@{line}')
+    st.oblige('req@children.setter/list-of-public-tasks', ForAll([x], Implies(mem(Vv, x), And(x != null, g.tid[x] != EMPTY)), patterns=[mem(Vv, x)]), f'@{line}')
     rc = reasons(g, m, Vv)
     exc1 = st.fork(rc); exc2 = st.fork(Not(rc)); ok = st.fork(Not(rc))
     for s2 in (exc2, ok):
@@ -270,7 +270,7 @@ def roots_setter_unit():
         fc = {'sig': {'self': W, 'value': LT}, 'ghost': {'attach_rejected': BOOL},
               'requires': [(l_, (lambda l_: lambda c: Inv(hc(c))[l_])(l_)) for l_ in LABS] +
                           [('wbs-non-null', lambda c: c['self'] != W.null), ('ghost-flag-starts-false', lambda c: Not(c.st.ghost['attach_rejected'])),
-                           ('list-of-public-tasks-without-repetition', lambda c: And(nodup(c['value']), ForAll([x], Implies(mem(c['value'], x), And(x != null, hc(c).tid[x] != EMPTY)))))],
+                           ('list-of-public-tasks', lambda c: ForAll([x], Implies(mem(c['value'], x), And(x != null, hc(c).tid[x] != EMPTY))))],
               'raises': {'RuntimeError': [('C15/a-call-rejected-by-a-check-changes-nothing', lambda c: Or(c.st.ghost['attach_rejected'], And(hc(c).par == h0(c).par, hc(c).own == h0(c).own, hc(c).elems == h0(c).elems))),
                                           ('C01,C05,C11/rejected-by-a-check-only-for-a-stated-reason', lambda c: Or(c.st.ghost['attach_rejected'], reasons(h0(c), root(c), c['value'])))]},
               'ensures': [(l_, (lambda l_: lambda c: Inv(hc(c))[l_])(l_)) for l_ in LABS] +
@@ -590,7 +590,7 @@ def task_init_unit():
               'requires': [(l_, (lambda l_: lambda c: Inv(hc(c))[l_])(l_)) for l_ in LABS] +
                           [('the-object-under-construction-is-blank', lambda c: blank(hc(c), me(c))), ('id-is-not-the-reserved-one', lambda c: c['id'] != EMPTY),
                            ('ghost-flag-starts-false', lambda c: Not(c.st.ghost['attach_rejected'])),
-                           ('children-given-as-a-list-of-public-tasks-without-repetition', lambda c: And(nodup(c['children']), ForAll([x], Implies(mem(c['children'], x), And(x != null, x != me(c), hc(c).tid[x] != EMPTY))))),
+                           ('children-given-as-a-list-of-public-tasks', lambda c: ForAll([x], Implies(mem(c['children'], x), And(x != null, x != me(c), hc(c).tid[x] != EMPTY)))),
                            ('no-dependency-arguments (domain of this proof; with them: bounded stand-in)', lambda c: And(ln(c['predecessors']) == 0, ln(c['successors']) == 0))],
               'loops': {0: {'fingerprint': 'for (k, v) in kwargs.items()', 'invariant': [('additional-attributes-do-not-touch-the-task-graph', lambda c: And(c['_i0'] >= 0, graph_same(c, hc(c), H(c.eng, c.entry)),
                                                                                                                                                      *[Inv(hc(c))[l_] for l_ in LABS]))]}},
